@@ -115,8 +115,12 @@ func (c *Config) GetKpasswdServers(realm string, tcp bool) (int, map[int]string,
 	return count, kdcs, nil
 }
 
-func randServOrder(ks []string) map[int]string {
+func randServOrder(servers []string) map[int]string {
 	kdcs := make(map[int]string)
+	// Work on a copy: the argument is the slice held by the configuration (Realm.KDC, Realm.KPasswdServer)
+	// and the loop below reorders its elements.
+	ks := make([]string, len(servers))
+	copy(ks, servers)
 	count := len(ks)
 	i := 1
 	if count > 1 {
